@@ -11,8 +11,9 @@
 //
 // Because some forms crash or never return, every case runs in a worker
 // process (this test binary re-executed): the master hands one case at a time
-// to a worker; a worker that dies reports a panic, a worker that stays silent
-// for c42HangSeconds on one case is killed and the case is reported as a hang.
+// to a worker; a worker that dies reports a panic, a worker that does not
+// answer while all its threads sleep and it uses no CPU for c42IdleSeconds is
+// killed (after dumping its goroutines) and the case is reported as a hang.
 package c42
 
 import (
@@ -23,6 +24,7 @@ import (
 	"os"
 	"os/exec"
 	"path/filepath"
+	"runtime"
 	"sort"
 	"strconv"
 	"strings"
@@ -117,26 +119,40 @@ type c42Act struct {
 }
 
 type c42Cmd struct {
-	src  string
-	kind int
-	acts []c42Act
+	src    string
+	kind   int
+	acts   []c42Act
+	suffix string // source text after the redirections
+	pipe   int    // c42PipeIn: the form is the last one of a pipeline; c42PipeOut: the first one
 }
+
+const (
+	c42NoPipe = iota
+	c42PipeIn
+	c42PipeOut
+)
+
+const c42PipeBytes = "q\n"
 
 var c42To2 = []c42Redir{{"", ">", true, "2"}}
 var c42To3 = []c42Redir{{"", ">", true, "3"}}
 
 var c42Cmds = []c42Cmd{
-	{"echo x", c42Writer, []c42Act{{c42ActEcho, "x", nil}}},
-	{"print p", c42Writer, []c42Act{{c42ActPrint, "p", nil}}},
-	{"put v", c42Writer, []c42Act{{c42ActPut, "v", nil}}},
-	{"{ echo a; echo b >&2 }", c42Writer, []c42Act{{c42ActEcho, "a", nil}, {c42ActEcho, "b", c42To2}}},
-	{"{ put v; put w >&2 }", c42Writer, []c42Act{{c42ActPut, "v", nil}, {c42ActPut, "w", c42To2}}},
-	{"{ echo c >&3 }", c42Writer, []c42Act{{c42ActEcho, "c", c42To3}}},
-	{"each {|x| put $x }", c42EachPut, nil},
-	{"each {|x| echo $x }", c42EachEcho, nil},
-	{"all", c42All, nil},
-	{"count", c42Count, nil},
-	{"slurp", c42Slurp, nil},
+	{"echo x", c42Writer, []c42Act{{c42ActEcho, "x", nil}}, "", 0},
+	{"print p", c42Writer, []c42Act{{c42ActPrint, "p", nil}}, "", 0},
+	{"put v", c42Writer, []c42Act{{c42ActPut, "v", nil}}, "", 0},
+	{"{ echo a; echo b >&2 }", c42Writer, []c42Act{{c42ActEcho, "a", nil}, {c42ActEcho, "b", c42To2}}, "", 0},
+	{"{ put v; put w >&2 }", c42Writer, []c42Act{{c42ActPut, "v", nil}, {c42ActPut, "w", c42To2}}, "", 0},
+	{"{ echo c >&3 }", c42Writer, []c42Act{{c42ActEcho, "c", c42To3}}, "", 0},
+	{"each {|x| put $x }", c42EachPut, nil, "", 0},
+	{"each {|x| echo $x }", c42EachEcho, nil, "", 0},
+	{"all", c42All, nil, "", 0},
+	{"count", c42Count, nil, "", 0},
+	{"slurp", c42Slurp, nil, "", 0},
+	// the redirected form inside a pipeline: as its last form (reading "q\n" from the pipe) ...
+	{"echo q | all", c42All, nil, "", c42PipeIn},
+	// ... and as its first form (writing into the pipe; `all` turns what arrives into values on stdout)
+	{"echo q", c42Writer, []c42Act{{c42ActEcho, "q", nil}}, " | all", c42PipeOut},
 }
 
 // Initial scratch files ("" + absent flag). f3 and f9 do not exist.
@@ -167,7 +183,7 @@ const (
 
 type c42MPort struct {
 	kind     int
-	base     int      // c42Base: 0 stdin, 1 stdout, 2 stderr of the evaluation
+	base     int      // c42Base: 0 stdin, 1 stdout, 2 stderr of the evaluation, 3 pipe from the previous form, 4 pipe to the next form
 	desc     *c42Desc // c42File
 	readMode bool     // c42File: opened by '<' (value channel never produces) or by > >> <> (value output raises)
 	op       string
@@ -176,6 +192,9 @@ type c42MPort struct {
 func (p *c42MPort) state() string {
 	switch p.kind {
 	case c42Base:
+		if p.base >= 3 {
+			return []string{"pipe-in", "pipe-out"}[p.base-3]
+		}
 		return "std" + strconv.Itoa(p.base)
 	case c42Closed:
 		return "closed"
@@ -205,6 +224,8 @@ type c42World struct {
 	openedBy   map[string]string
 	outB       [3]string
 	outV       [3][]string
+	pipeB      string   // bytes written into the pipe to the next form
+	pipeV      []string // values written into it
 	mask, used int
 	notJudged  string
 	unrunnable bool
@@ -350,10 +371,14 @@ func (w *c42World) writeBytes(p *c42MPort, s string) *c42Exc {
 		}
 		return nil
 	case c42Base:
-		if p.base == 0 {
-			return w.dontJudge("bytes-written-to-stdin")
+		switch p.base {
+		case 0, 3:
+			return w.dontJudge("bytes-written-to-an-input-port")
+		case 4:
+			w.pipeB += s
+		default:
+			w.outB[p.base] += s
 		}
-		w.outB[p.base] += s
 		return nil
 	}
 	d := p.desc
@@ -385,10 +410,14 @@ func (w *c42World) writeValue(p *c42MPort, v string) *c42Exc {
 		w.ev("value>closed")
 		return &c42Exc{"cmd", "value-to-closed-port"}
 	case c42Base:
-		if p.base == 0 {
-			return w.dontJudge("value-written-to-stdin")
+		switch p.base {
+		case 0, 3:
+			return w.dontJudge("value-written-to-an-input-port")
+		case 4:
+			w.pipeV = append(w.pipeV, v)
+		default:
+			w.outV[p.base] = append(w.outV[p.base], v)
 		}
-		w.outV[p.base] = append(w.outV[p.base], v)
 		return nil
 	}
 	if p.readMode {
@@ -408,13 +437,18 @@ func (w *c42World) readInputs(p *c42MPort) (data string, values []string, exc *c
 		}
 		return "", nil, nil
 	case c42Base:
-		if p.base != 0 {
-			// reading from the evaluation's own output ports legitimately blocks
-			w.unrunnable = true
-			return "", nil, c42Stop
+		switch p.base {
+		case 0:
+			w.ev("read<stdin")
+			return c42StdinBytes, []string{c42StdinValue}, nil
+		case 3:
+			w.ev("read<pipe")
+			return c42PipeBytes, nil, nil
 		}
-		w.ev("read<stdin")
-		return c42StdinBytes, []string{c42StdinValue}, nil
+		// reading from an output port of the evaluation or from the write end
+		// of the pipeline legitimately blocks
+		w.unrunnable = true
+		return "", nil, c42Stop
 	}
 	if !p.readMode {
 		return "", nil, w.dontJudge("input-from-file-port-opened-by-" + p.op)
@@ -480,6 +514,12 @@ func c42RunModel(cmd c42Cmd, redirs []c42Redir, mask int) (c42Outcome, *c42World
 		w.exists[k] = true
 	}
 	ports := map[int]*c42MPort{0: {kind: c42Base, base: 0}, 1: {kind: c42Base, base: 1}, 2: {kind: c42Base, base: 2}}
+	switch cmd.pipe {
+	case c42PipeIn:
+		ports[0] = &c42MPort{kind: c42Base, base: 3}
+	case c42PipeOut:
+		ports[1] = &c42MPort{kind: c42Base, base: 4}
+	}
 	var exc *c42Exc
 	for _, r := range redirs {
 		if exc = w.redirect(ports, r); exc != nil {
@@ -488,6 +528,10 @@ func c42RunModel(cmd c42Cmd, redirs []c42Redir, mask int) (c42Outcome, *c42World
 	}
 	if exc == nil {
 		exc = w.command(cmd, ports)
+	}
+	if cmd.pipe == c42PipeOut {
+		// the next form is `all`: what arrived through the pipe becomes values on stdout
+		w.outV[1] = append(append(w.outV[1], c42Lines(w.pipeB)...), w.pipeV...)
 	}
 	out := c42Outcome{OutB: w.outB[1], ErrB: w.outB[2], OutV: w.outV[1], ErrV: w.outV[2], Files: map[string]string{}}
 	for _, n := range c42FileNames {
@@ -664,6 +708,7 @@ type c42Obs struct {
 	Panic  string   `json:"panic"`
 	Leaks  []string `json:"leaks"`
 	Err    string   `json:"err"` // harness-side problem
+	Bye    bool     `json:"bye"` // the worker exits after this answer
 }
 
 func c42ExcCat(err error) (cat, msg string) {
@@ -707,9 +752,19 @@ func c42WorkerMain() {
 	for sc.Scan() {
 		src := sc.Text()
 		obs := c42RunReal(ev, src, caseDir, baseDir)
-		must(enc.Encode(obs))
 		if obs.Panic != "" {
-			// the evaluation was abandoned half-way (open files, frames): start afresh
+			// The evaluation was abandoned half-way and left its files open:
+			// let the finalizers close them, or else start afresh.
+			clean := false
+			for i := 0; i < 50 && !clean; i++ {
+				runtime.GC()
+				time.Sleep(200 * time.Microsecond)
+				clean = len(c42OpenScratch(caseDir)) == 0
+			}
+			obs.Bye = !clean
+		}
+		must(enc.Encode(obs))
+		if obs.Bye {
 			os.Exit(0)
 		}
 	}
@@ -769,22 +824,35 @@ func c42RunReal(ev *eval.Evaler, src, caseDir, baseDir string) (obs c42Obs) {
 		}
 	}
 	// "Files opened by a redirection are closed when the form finishes."
+	if obs.Panic == "" {
+		obs.Leaks = c42OpenScratch(caseDir)
+	}
+	return
+}
+
+// c42OpenScratch lists the scratch files this process has open descriptors for.
+func c42OpenScratch(caseDir string) []string {
+	var open []string
 	if ents, err := os.ReadDir("/proc/self/fd"); err == nil {
 		for _, e := range ents {
 			if t, err := os.Readlink("/proc/self/fd/" + e.Name()); err == nil && strings.HasPrefix(t, caseDir+"/") {
-				obs.Leaks = append(obs.Leaks, filepath.Base(t))
+				open = append(open, filepath.Base(t))
 			}
 		}
-		sort.Strings(obs.Leaks)
+		sort.Strings(open)
 	}
-	return
+	return open
 }
 
 // ---------------------------------------------------------------------------
 // Master side of the worker protocol
 // ---------------------------------------------------------------------------
 
-const c42HangSeconds = 20
+// See (*c42Worker).run.
+const (
+	c42IdleSeconds = 10
+	c42BusySeconds = 900
+)
 
 type c42Worker struct {
 	cmd    *exec.Cmd
@@ -812,7 +880,7 @@ func c42Spawn(id int) (*c42Worker, error) {
 	}
 	w := &c42Worker{in: cmdW, lines: make(chan string, 4), stderr: &bytes.Buffer{}}
 	w.cmd = exec.Command(self, "-test.run", "^TestVerifC42$", "-test.timeout", "0")
-	w.cmd.Env = append(os.Environ(), "VERIF_C42_WORKER=1", "VERIF_C42_DIR="+dir)
+	w.cmd.Env = append(os.Environ(), "VERIF_C42_WORKER=1", "VERIF_C42_DIR="+dir, "GOMAXPROCS=2", "GOTRACEBACK=all")
 	w.cmd.ExtraFiles = []*os.File{cmdR, resW}
 	w.cmd.Stderr = w.stderr
 	w.cmd.Stdout = w.stderr
@@ -842,31 +910,146 @@ func (w *c42Worker) stop(kill bool) {
 	w.cmd.Wait()
 }
 
+// quit ends a silent worker: SIGQUIT makes the Go runtime dump all goroutine
+// stacks (returned for the report), SIGKILL follows if that does not end it.
+func (w *c42Worker) quit() string {
+	w.cmd.Process.Signal(syscall.SIGQUIT)
+	done := make(chan struct{})
+	go func() { w.cmd.Wait(); close(done) }()
+	select {
+	case <-done:
+	case <-time.After(10 * time.Second):
+		w.cmd.Process.Signal(syscall.SIGKILL)
+		<-done
+	}
+	w.in.Close()
+	return w.stderr.String()
+}
+
+// c42Blocked summarises a goroutine dump: where the goroutine evaluating the
+// case is blocked (file of its innermost elvish frame) and the states of all
+// goroutines inside elvish code.
+func c42Blocked(dump string) (site, summary string) {
+	site = "unknown"
+	var parts []string
+	for _, blk := range strings.Split(dump, "\n\n") {
+		blk = strings.TrimSpace(blk)
+		if !strings.HasPrefix(blk, "goroutine ") {
+			continue
+		}
+		lines := strings.Split(blk, "\n")
+		state := lines[0]
+		if i := strings.IndexByte(state, '['); i >= 0 {
+			state = strings.TrimSuffix(state[i:], ":")
+		}
+		fn, file := "", ""
+		for i := 1; i+1 < len(lines); i++ {
+			l := lines[i]
+			if strings.HasPrefix(l, "src.elv.sh/pkg/") && !strings.Contains(l, "zzverif") {
+				fn = l
+				if j := strings.IndexByte(fn, '('); j > 0 && !strings.HasPrefix(fn[j:], "(*") {
+					fn = fn[:j]
+				}
+				fn = strings.TrimPrefix(fn, "src.elv.sh/pkg/")
+				f := strings.Fields(strings.TrimSpace(lines[i+1]))
+				if len(f) > 0 {
+					file = filepath.Base(f[0])
+				}
+				break
+			}
+		}
+		if fn == "" {
+			continue
+		}
+		parts = append(parts, state+" in "+fn+" "+file)
+		if strings.Contains(blk, "c42RunReal") {
+			site = file
+			if j := strings.IndexByte(site, ':'); j >= 0 {
+				site = site[:j]
+			}
+		}
+	}
+	sort.Strings(parts)
+	return site, strings.Join(parts, "; ")
+}
+
 const (
 	c42StOK = iota
 	c42StDied
 	c42StHang
 )
 
+// c42ProcState reads /proc/<pid>/task/*/stat: the CPU ticks consumed by the
+// process so far and whether every thread is sleeping (state S).
+func c42ProcState(pid int) (ticks int64, allAsleep bool) {
+	tasks, err := os.ReadDir(fmt.Sprintf("/proc/%d/task", pid))
+	if err != nil || len(tasks) == 0 {
+		return -1, false
+	}
+	allAsleep = true
+	for _, t := range tasks {
+		b, err := os.ReadFile(fmt.Sprintf("/proc/%d/task/%s/stat", pid, t.Name()))
+		if err != nil {
+			continue // thread ended meanwhile
+		}
+		st := string(b)
+		i := strings.LastIndexByte(st, ')')
+		f := strings.Fields(st[i+1:])
+		if i < 0 || len(f) < 13 {
+			return -1, false
+		}
+		if f[0] != "S" {
+			allAsleep = false
+		}
+		u, _ := strconv.ParseInt(f[11], 10, 64)
+		k, _ := strconv.ParseInt(f[12], 10, 64)
+		ticks += u + k
+	}
+	return ticks, allAsleep
+}
+
 // run evaluates one case in the worker. On c42StDied the second result is the
-// worker's stderr.
+// worker's stderr, on c42StHang its goroutine dump.
+//
+// Non-termination verdict: the worker has not answered and, in
+// c42IdleSeconds consecutive one-second samples, every one of its threads was
+// asleep and it consumed no CPU at all, i.e. no goroutine of the evaluation
+// can run any more (a worker that is merely slow because the machine is
+// loaded is runnable or accumulates CPU time and is waited for, up to
+// c42BusySeconds).
 func (w *c42Worker) run(src string) (int, string) {
 	if _, err := fmt.Fprintln(w.in, src); err != nil {
 		w.stop(true)
 		return c42StDied, "write to worker failed: " + err.Error() + "\n" + w.stderr.String()
 	}
-	timer := time.NewTimer(c42HangSeconds * time.Second)
-	defer timer.Stop()
-	select {
-	case line, ok := <-w.lines:
-		if !ok {
-			w.stop(false)
-			return c42StDied, w.stderr.String()
+	tick := time.NewTicker(time.Second)
+	defer tick.Stop()
+	idle, silent := 0, 0
+	last := int64(-2)
+	for {
+		select {
+		case line, ok := <-w.lines:
+			if !ok {
+				w.stop(false)
+				return c42StDied, w.stderr.String()
+			}
+			return c42StOK, line
+		case <-tick.C:
+			silent++
+			ticks, asleep := c42ProcState(w.cmd.Process.Pid)
+			if asleep && ticks == last {
+				idle++
+			} else {
+				idle = 0
+			}
+			last = ticks
+			if idle >= c42IdleSeconds {
+				return c42StHang, w.quit()
+			}
+			if silent >= c42BusySeconds {
+				return c42StHang, "BUSY\n" + w.quit()
+			}
 		}
-		return c42StOK, line
-	case <-timer.C:
-		w.stop(true)
-		return c42StHang, ""
 	}
 }
 
@@ -907,7 +1090,7 @@ func (k c42Case) src() string {
 	for _, r := range k.redirs {
 		s += " " + c42Redirs[r].text()
 	}
-	return s
+	return s + c42Cmds[k.cmd].suffix
 }
 
 func (k c42Case) redirList() []c42Redir {
@@ -923,6 +1106,10 @@ type c42Finding struct {
 	key, msg    string
 	replay      string
 	harnessFail bool
+}
+
+func c42KeyEvent(ev string) string {
+	return strings.TrimPrefix(strings.TrimPrefix(ev, "exc:"), "nj:")
 }
 
 func c42NormMsg(msg string) string {
@@ -949,13 +1136,13 @@ func TestVerifC42(t *testing.T) {
 			}
 		}
 		for _, cm := range c42Cmds {
-			cmdTexts = append(cmdTexts, cm.src)
+			cmdTexts = append(cmdTexts, cm.src+" ..."+cm.suffix)
 		}
 		c.Rule(fmt.Sprintf("every form '<command> <redirections>' with command in %q and every sequence of <=%d redirections over the %d-symbol alphabet %q plus every sequence of %d..%d redirections over its first %d symbols (core), shortest first; files f0 f1 f2 pre-filled, f3 f9 absent; stdin carries one line and one value, stdout/stderr capture bytes and values; class = (command, model events of each redirection and of the command, expected exception tag)",
 			cmdTexts, nFull, len(c42Redirs), fullTexts, nFull+1, nCore, c42CoreN))
 		c.Assume(
 			"file contents follow POSIX open-file-description semantics (a duplicated port shares the offset, two opens of one file do not)",
-			fmt.Sprintf("non-termination is observed as: a worker process is silent for %d s on one case (typical case: < 1 ms)", c42HangSeconds),
+			fmt.Sprintf("non-termination is observed as: the worker process evaluating the case has not answered and for %d consecutive seconds all its threads are asleep and it consumes no CPU (no goroutine can run any more), or it has not answered after %d s (typical case: < 1 ms)", c42IdleSeconds, c42BusySeconds),
 			"where the reference is silent both outcomes are accepted: duplicating a closed port (exception / closed duplicate), bytes written to a closed port (exception / dropped), reading from a closed port (exception / no input), merge order of stdin's line and value; ports used against their direction are not judged (panics and hangs still are)",
 			"an invalid destination fd is rejected before the source file is opened")
 
@@ -995,6 +1182,7 @@ func TestVerifC42(t *testing.T) {
 		}
 		var harnessErr string
 		var nextID int
+		var maxLatency time.Duration // diagnostic only (never part of the oracle)
 		workers := map[*vk.Local]*c42Worker{}
 		getWorker := func(l *vk.Local) *c42Worker {
 			mu.Lock()
@@ -1047,24 +1235,52 @@ func TestVerifC42(t *testing.T) {
 					return
 				}
 				class := fmt.Sprintf("%d|%s", k.cmd, m.class)
+				// rejected != "": the model says one of the redirections must be
+				// refused with an exception; whatever else happens instead (other
+				// than a panic) has that one cause.
+				rejected := ""
+				if len(m.allowed) == 1 && (m.allowed[0].Exc == "bad-fd" || m.allowed[0].Exc == "open-failed") {
+					rejected = m.allowed[0].tag
+				}
 				w := getWorker(l)
 				if w == nil {
 					return
 				}
+				t0 := time.Now()
 				st, resp := w.run(src)
+				if el := time.Since(t0); st == c42StOK {
+					mu.Lock()
+					if el > maxLatency {
+						maxLatency = el
+					}
+					mu.Unlock()
+				}
 				switch st {
 				case c42StHang:
 					dropWorker(l)
+					site, blocked := c42Blocked(resp)
+					how := fmt.Sprintf("never answered: all its threads were asleep and it used no CPU for %d s", c42IdleSeconds)
+					if strings.HasPrefix(resp, "BUSY") {
+						how = fmt.Sprintf("had not answered after %d s", c42BusySeconds)
+					}
 					mu.Lock()
 					hangSeen[m.hangKey]++
+					firstOfKey := hangSeen[m.hangKey] == 1
 					mu.Unlock()
-					report(idx, m.hangKey, fmt.Sprintf("%q did not return within %d s (worker killed); the model expects it to finish with one of %s", src, c42HangSeconds, c42Show(m.allowed)), src)
+					if firstOfKey {
+						fmt.Printf("INFO property=C42 worker %s on %q (model class %s)\n", how, src, m.hangKey)
+					}
+					key := "hang:" + site + ":" + strings.TrimPrefix(m.hangKey, "hang:")
+					if rejected != "" {
+						key = "not-rejected:" + rejected
+					}
+					report(idx, key, fmt.Sprintf("%q does not return: the worker %s (goroutines: %s); the model expects it to finish with one of %s", src, how, blocked, c42Show(m.allowed)), src)
 					l.Case(class + "|hang")
 					return
 				case c42StDied:
 					dropWorker(l)
 					msg, site := c42DeathSite(resp)
-					report(idx, "panic:"+site+":"+m.lastEvent, fmt.Sprintf("%q crashed the process: %s (at %s)", src, msg, site), src)
+					report(idx, "panic:"+site+":"+c42KeyEvent(m.lastEvent), fmt.Sprintf("%q crashed the process: %s (at %s)", src, msg, site), src)
 					l.Case(class + "|crash")
 					return
 				}
@@ -1075,10 +1291,12 @@ func TestVerifC42(t *testing.T) {
 					mu.Unlock()
 					return
 				}
-				if obs.Panic != "" {
+				if obs.Bye {
 					w.stop(false)
 					dropWorker(l)
-					report(idx, "panic:"+vk.PanicSite(obs.Panic)+":"+m.lastEvent, fmt.Sprintf("%q panicked: %s", src, obs.Panic), src)
+				}
+				if obs.Panic != "" {
+					report(idx, "panic:"+vk.PanicSite(obs.Panic)+":"+c42KeyEvent(m.lastEvent), fmt.Sprintf("%q panicked: %s", src, obs.Panic), src)
 					l.Case(class + "|panic")
 					return
 				}
@@ -1104,6 +1322,9 @@ func TestVerifC42(t *testing.T) {
 					key := best[0]
 					if key == "unexpected-exception" {
 						key += ":" + c42NormMsg(obs.ExcMsg)
+					}
+					if rejected != "" {
+						key = "not-rejected:" + rejected
 					}
 					report(idx, key, fmt.Sprintf("%q: differs in %v; observed %s (exception %q); the model allows %s", src, best, c42Show([]c42Outcome{obs.c42Outcome}), obs.ExcMsg, c42Show(m.allowed)), src)
 				}
@@ -1139,6 +1360,8 @@ func TestVerifC42(t *testing.T) {
 		}
 		os.RemoveAll(filepath.Join(os.Getenv("VERIF_SCRATCH"), "c42"))
 
+		c.Set("workers_started", nextID)
+		c.Set("slowest_answered_case_ms", maxLatency.Milliseconds())
 		if harnessErr != "" {
 			fmt.Printf("HARNESS-ERROR property=C42 %s\n", harnessErr)
 			c.Capped("harness error")
